@@ -186,6 +186,10 @@ class Harness:
         from hypothesis import HealthCheck, Phase, given, settings
         from vt.shrink import shrink
 
+        if os.environ.get("VT_SKIP_HYP"):  # development aid: enumeration / corpus parts only
+            self.notes.append(f"VT_SKIP_HYP set: skipped {name}")
+            return
+
         sett = settings(max_examples=max_examples, database=None, deadline=None,
                         derandomize=False, report_multiple_bugs=False,
                         suppress_health_check=[HealthCheck.too_slow, HealthCheck.data_too_large],
